@@ -153,27 +153,33 @@ theorem addedGraph_WF {g : Graph α} (h : g.WF) {a b : α} (hab : a ≠ b) : (ad
       · exact h1.no_loop e he
 
 theorem deleteLink_graph {rm rm' : RoleMgr α} {a b d : α} (h : rm.deleteLink a b d = some rm') (d' : α) :
-    rm'.graph d' = if d = d' then { rm.graph d with edges := (rm.graph d).edges.erase (a, b) } else rm.graph d' := by
+    rm'.graph d' = if a ≠ b ∧ d = d' then { rm.graph d with edges := (rm.graph d).edges.erase (a, b) } else rm.graph d' := by
   unfold RoleMgr.deleteLink at h
   split at h
-  · cases h
-  · cases h
-    rw [graph_setDom]
+  · rename_i hab; cases h; simp [hab]
+  · rename_i hab
+    split at h
+    · cases h
+    · cases h
+      rw [graph_setDom]
+      simp [hab]
 
 theorem deleteLink_none_no_edge {rm : RoleMgr α} (hw : rm.WF) {a b d : α} (h : rm.deleteLink a b d = none) :
     (a, b) ∉ (rm.graph d).edges := by
   unfold RoleMgr.deleteLink at h
   split at h
-  · rename_i hc
-    intro he
-    have := (hw d).edges_in _ he
-    simp only [RoleMgr.domainHasRole] at hc
-    cases hg : rm.graph? d with
-    | none => rw [RoleMgr.graph?_none_graph hg] at he; simp [Graph.empty] at he
-    | some g =>
-      rw [RoleMgr.graph?_some_graph hg] at this
-      simp [hg, this.1, this.2] at hc
   · cases h
+  · split at h
+    · rename_i hc
+      intro he
+      have := (hw d).edges_in _ he
+      simp only [RoleMgr.domainHasRole] at hc
+      cases hg : rm.graph? d with
+      | none => rw [RoleMgr.graph?_none_graph hg] at he; simp [Graph.empty] at he
+      | some g =>
+        rw [RoleMgr.graph?_some_graph hg] at this
+        simp [hg, this.1, this.2] at hc
+    · cases h
 
 theorem WF_new (n : Nat) : (RoleMgr.new n : RoleMgr α).WF := by
   intro d; simp [RoleMgr.new, RoleMgr.graph, RoleMgr.graph?]; exact Graph.WF_empty
@@ -195,8 +201,9 @@ theorem WF_apply {rm : RoleMgr α} (hw : rm.WF) (op : RmOp α) : (rm.apply op).W
     | none => exact hw d'
     | some rm' =>
       simp only [Option.getD, deleteLink_graph hdl]
-      by_cases hd : d = d'
-      · simp only [hd, if_true]
+      by_cases hd : a ≠ b ∧ d = d'
+      · rw [if_pos hd]
+        obtain ⟨_, hd⟩ := hd
         have h0 := hw d'
         subst hd
         refine ⟨h0.nodes_nodup, ?_, ?_, ?_⟩
@@ -217,7 +224,9 @@ theorem maxLevel_apply (rm : RoleMgr α) (op : RmOp α) : (rm.apply op).maxLevel
   | add a b d => simp only [RoleMgr.apply, RoleMgr.addLink]; split <;> rfl
   | del a b d =>
     simp only [RoleMgr.apply, RoleMgr.deleteLink]
-    split <;> rfl
+    split
+    · rfl
+    · split <;> rfl
   | clear => rfl
 
 theorem maxLevel_run (rm : RoleMgr α) (h : List (RmOp α)) : (rm.run h).maxLevel = rm.maxLevel := by
@@ -272,20 +281,30 @@ theorem refines_apply {rm : RoleMgr α} {L : LinkRel α} (hw : rm.WF) (hr : Refi
       · simp only [h1, if_false]; exact hr d' a' b'
     | some rm' =>
       simp only [Option.getD, deleteLink_graph hdl]
-      by_cases hd : d = d'
-      · subst hd
-        simp only [if_true]
-        by_cases h1 : a' = a ∧ b' = b
-        · obtain ⟨h2, h3⟩ := h1; subst h2 h3
-          have hne := (hw d).edges_nodup.not_mem_erase (a := (a', b'))
-          simp [hne]
-        · simp only [eq_false h1, and_false, if_false]
-          rw [← hr d a' b']
-          have hne : (a', b') ≠ (a, b) := by
-            intro h; simp only [Prod.mk.injEq] at h; exact h1 h
-          exact List.mem_erase_of_ne hne
-      · have : ¬ (d' = d ∧ a' = a ∧ b' = b) := fun h => hd h.1.symm
-        simp only [hd, if_false, this]; exact hr d' a' b'
+      by_cases hab : a = b
+      · -- deleting a self-link: nothing changes, and no edge is a self-link
+        subst hab
+        simp only [ne_eq, not_true_eq_false, false_and, if_false]
+        by_cases h1 : d' = d ∧ a' = a ∧ b' = a
+        · obtain ⟨h1, h2, h3⟩ := h1
+          rw [h1, h2, h3]
+          have : (a, a) ∉ (rm.graph d).edges := fun he => (hw d).no_loop _ he rfl
+          simp [this]
+        · simp only [h1, if_false]; exact hr d' a' b'
+      · by_cases hd : d = d'
+        · subst hd
+          simp only [ne_eq, hab, not_false_eq_true, and_self, if_true]
+          by_cases h1 : a' = a ∧ b' = b
+          · obtain ⟨h2, h3⟩ := h1; subst h2 h3
+            have hne := (hw d).edges_nodup.not_mem_erase (a := (a', b'))
+            simp [hne]
+          · simp only [eq_false h1, and_false, if_false]
+            rw [← hr d a' b']
+            have hne : (a', b') ≠ (a, b) := by
+              intro h; simp only [Prod.mk.injEq] at h; exact h1 h
+            exact List.mem_erase_of_ne hne
+        · have : ¬ (d' = d ∧ a' = a ∧ b' = b) := fun h => hd h.1.symm
+          simp only [hd, and_false, if_false, this]; exact hr d' a' b'
   | clear =>
     simp [RoleMgr.apply, RoleMgr.clear, RoleMgr.graph, RoleMgr.graph?, LinkRel.step, Graph.empty]
 
